@@ -25,7 +25,7 @@ OPAQUE_PANICKING = (
     "std::vec::Vec::remove", "std::vec::Vec::insert", "std::vec::Vec::swap_remove",
     "std::vec::Vec::drain", "std::vec::Vec::split_off", "std::collections::VecDeque::drain",
     "std::collections::vec_deque::VecDeque::drain",
-    "std::collections::VecDeque::swap", "std::slice::copy_from_slice", "std::slice::clone_from_slice",
+    "std::collections::VecDeque::swap",
     "std::slice::swap", "std::slice::chunks", "std::slice::chunks_exact", "std::slice::windows",
     "std::iter::Iterator::step_by", "std::cell::RefCell::borrow_mut", "std::cell::RefCell::borrow",
     "arrayvec::ArrayVec::push", "arrayvec::ArrayVec::insert", "arrayvec::ArrayVec::remove",
@@ -166,6 +166,9 @@ class PanicAnalysis:
                 bne = [x[1] for x in bad if not isinstance(x, Lin)]
                 if rs.contradiction(facts + blin, list(fnes) + list(nes) + bne):
                     continue
+                if self._phi_split(ir, rs, bi, facts + blin, list(fnes) + list(nes) + bne, 0):
+                    site.why = "dominating guards, split over the definitions merging at a join"
+                    continue
                 ok = False
                 failing.append(bad)
             if ok:
@@ -201,6 +204,102 @@ class PanicAnalysis:
                 fs.residual.append(site)
                 self.stats["residual"] += 1
         return fs
+
+    # ------------------------------------------------------------------ joins
+    def _phi_split(self, ir, rs, bi, lins, nes, depth):
+        """The failing condition mentions a variable whose value at the site is a join of several
+        definitions.  Refute it separately for every predecessor of the join block, where the
+        variable has one definite version and that path's own guards hold."""
+        if depth > 2:
+            return False
+        body = ir.b
+        target = None
+        for l in lins + list(nes):
+            for a in l.co:
+                for x in walk(a):
+                    if isinstance(x, tuple) and x and x[0] == "var" and len(x) > 3 and isinstance(x[3], tuple) \
+                            and x[3] and x[3][0] == "phi":
+                        M = x[3][1]
+                        if body.dominates(M, bi):
+                            if target is None or body.dominates(target[3][1], M):
+                                target = x
+        if target is None:
+            return False
+        M = target[3][1]
+        preds = [p for p in body.pred[M] if p in body.live]
+        if not preds or len(preds) > 6:
+            return False
+        for p in preds:
+            n = len(body.blocks[p]["st"])
+            ep = ir.epoch((("v", target[1]), ()), (p, n + 1))
+            new = ("var", target[1], target[2], ep)
+            ir.ety.setdefault(new, ir.ltystr(target[1]))
+
+            def ren(l):
+                co = {}
+                for a, c in l.co.items():
+                    a2 = _replace(a, target, new)
+                    co[a2] = co.get(a2, 0) + c
+                return Lin({a: c for a, c in co.items() if c}, l.k)
+
+            rl = [ren(l) for l in lins]
+            rn = [ren(l) for l in nes]
+            pf, pn = rs.facts_at(p)
+            ef, en = self._edge_facts(ir, rs, p, M)
+            extra = []
+            # the value assigned at the version's definition point
+            if isinstance(ep, tuple) and len(ep) == 2 and isinstance(ep[0], int):
+                blk = body.blocks[ep[0]]
+                val = None
+                if ep[1] < len(blk["st"]):
+                    st = blk["st"][ep[1]]
+                    if st["k"] == "assign" and not st["p"].get("pr") and st["p"]["l"] == target[1]:
+                        val = ir.stamp(simplify(ir.rvalue(st["r"], (ep[0], ep[1]))), (ep[0], ep[1]))
+                else:
+                    t = blk["term"]
+                    if t["k"] == "call" and not t["dest"].get("pr") and t["dest"]["l"] == target[1]:
+                        val = ir.call_expr(ep[0], t)
+                if val is not None and int_range(ir.ltystr(target[1])):
+                    lv = rs.lin(val)
+                    if lv is not None:
+                        d = Lin.atom(new).sub(lv)
+                        extra = [d, d.scale(-1)]
+            allf = rl + pf + ef + extra
+            alln = rn + pn + en
+            if rs.contradiction(allf, alln):
+                continue
+            if self._phi_split(ir, rs, p, allf, alln, depth + 1):
+                continue
+            return False
+        return True
+
+    def _edge_facts(self, ir, rs, p, m):
+        """constraints implied by taking the CFG edge p -> m"""
+        t = ir.b.blocks[p]["term"]
+        facts, nes = [], []
+        cs = []
+        if t["k"] == "switch":
+            vals = [v for v, tb in t["targets"] if tb == m]
+            e = ir.term_operand(p, t["o"])
+            if t["otherwise"] == m and not vals:
+                cs = [(e, "notin", tuple(v for v, _ in t["targets"]), t.get("dty"))]
+            elif len(vals) == 1 and t["otherwise"] != m:
+                cs = [(e, "==", vals[0], t.get("dty"))]
+        elif t["k"] == "assert" and t.get("t") == m:
+            cs = [(ir.term_operand(p, t["cond"]), "==", 1 if t["expected"] else 0, "bool")]
+        for e, rel, v, dty in cs:
+            if e[0] == "discr":
+                var = rs.variant_of_discr(e[1], rel, v)
+                if var is not None:
+                    facts.extend(rs.variant_constraints(e[1], var))
+                facts.extend(rs.ordering_constraints(e[1], rel, v))
+                continue
+            for c in rs.constraints_of(e, rel, v, dty):
+                if isinstance(c, tuple):
+                    nes.append(c[1])
+                else:
+                    facts.append(c)
+        return facts, nes
 
     # ------------------------------------------------------------------ assert terminators
     def _assert_site(self, body, ir, rs, bi, t):
@@ -275,19 +374,24 @@ class PanicAnalysis:
                 s.status = "residual"
                 return s, None
             return s, [[la.sub(Lin.const(r[0])), Lin.const(r[0]).sub(la)]]
-        if msg in ("DivisionByZero", "RemainderByZero"):
-            a = ops[0]
-            la = rs.lin(a)
-            s = Site(body.id, bi, ln, "divzero", "%s" % stable(a), detail="div")
-            if la is None:
-                s.status = "residual"
-                return s, None
-            return s, [[la, la.scale(-1)]]
         if msg in ("MisalignedPointer", "NullPointer"):
             return None, None
-        s = Site(body.id, bi, ln, "assert", msg, detail=msg)
-        s.status = "residual"
-        return s, None
+        # everything else (division by zero, signed division overflow, ...): the assert's own
+        # condition, negated, is the failing condition
+        cond = ir.term_operand(bi, t["cond"])
+        detail = {"DivisionByZero": "div", "RemainderByZero": "rem"}.get(msg, msg.split(":")[0])
+        s = Site(body.id, bi, ln, "divzero" if msg in ("DivisionByZero", "RemainderByZero") else "assert",
+                 "%s: %s" % (msg, stable(cond)), detail=detail)
+        bad = rs.bool_constraints(cond, not t["expected"])
+        if not bad:
+            lc = rs.cv(cond)
+            if lc is not None and bool(lc) == bool(t["expected"]):
+                s.status = "discharged"
+                s.why = "constant condition"
+                return s, None
+            s.status = "residual"
+            return s, None
+        return s, [bad]
 
     # ------------------------------------------------------------------ calls
     def _call_site(self, body, ir, rs, bi, t):
@@ -365,6 +469,14 @@ class PanicAnalysis:
                 s.why = "full range"
                 return s, None, []
             return s, [[g.scale(-1).add(Lin.const(1))] for g in goals], []
+        if (path_matches(f, "std::slice::copy_from_slice") or path_matches(f, "std::slice::clone_from_slice")) and len(args) == 2:
+            ld, ls_ = rs.len_lin(args[0]), rs.len_lin(args[1])
+            s = Site(body.id, bi, ln, "copy_from_slice", "len(%s) == len(%s)" % (stable(_strip_reborrow(args[0])), stable(_strip_reborrow(args[1]))), exp, detail="copy_from_slice")
+            if ld is None or ls_ is None:
+                s.status = "residual"
+                return s, None, []
+            d = ld.sub(ls_)
+            return s, [[d.add(Lin.const(1))], [d.scale(-1).add(Lin.const(1))]], []
         for x in OPAQUE_PANICKING:
             if path_matches(f, x):
                 s = Site(body.id, bi, ln, "api", "%s(%s)" % (x.split("::", 1)[-1], ", ".join(stable(a) for a in args[:3])), exp, detail=x)
@@ -501,6 +613,14 @@ class PanicAnalysis:
                 continue
             out.extend(s.residual)
         return out
+
+
+def _replace(e, old, new):
+    if e == old:
+        return new
+    if not isinstance(e, tuple):
+        return e
+    return tuple(_replace(x, old, new) if isinstance(x, tuple) else x for x in e)
 
 
 def _producer(x):
